@@ -51,7 +51,9 @@ func setup4(args ...string) (handler.Handler4, error) {
 }
 
 func Handler4(req, resp *dhcpv4.DHCPv4) (*dhcpv4.DHCPv4, bool) {
-	v6pref := req.IsOptionRequested(dhcpv4.OptionIPv6OnlyPreferred)
+	// IsOptionRequested is true for every option when the client sent no parameter
+	// request list at all; RFC8925 §3.3 wants the option explicitly listed
+	v6pref := req.ParameterRequestList().Has(dhcpv4.OptionIPv6OnlyPreferred)
 	log.WithFields(logrus.Fields{
 		"mac":      req.ClientHWAddr.String(),
 		"ipv6only": v6pref,
